@@ -152,6 +152,9 @@ func Pool() []Block {
 		{Name: "H_alias", Kind: "http", Defines: []string{"path:/al"}, Needs: []string{"@pk"}, Nodes: one(func() *Node {
 			return N("GET", "/al/{kid}").WithKids(N("Path").WithBody("@pk"), N("200", "any"))
 		})},
+		{Name: "T_opt", Kind: "type", Defines: []string{"@opt"}, Nodes: one(func() *Node {
+			return N("TYPE", "@opt").WithBody("{\n  \"oid\": 1 // {optional: true}\n}")
+		})},
 		{Name: "T_int", Kind: "type", Defines: []string{"@int"}, Nodes: one(func() *Node { return N("TYPE", "@int").WithBody("12 // {min: 1}") })},
 		{Name: "T_flt", Kind: "type", Defines: []string{"@flt"}, Nodes: one(func() *Node { return N("TYPE", "@flt").WithBody("1.5") })},
 		{Name: "H_pref", Kind: "http", Defines: []string{"path:/pref"}, Needs: []string{"@int", "@flt", "@c"}, Nodes: one(func() *Node {
